@@ -185,25 +185,44 @@ where
     where
         FIP: FnOnce() -> T,
     {
-        // We do not today make use of our right to create a "first" instance of `T` even when
-        // we do not need it. This is a potential future optimization if it proves valuable.
-
-        let mut global_registry = GLOBAL_REGISTRY.write().expect(ERR_POISONED_LOCK);
-
         // TODO: We are repeatedly acquiring the family key here and in sibling functions.
         // Perhaps a trivial cost but explore the value of eliminating the duplicate access.
         let family_key = (self.family_key_provider)();
-        let entry = global_registry.entry(family_key);
 
-        match entry {
-            hash_map::Entry::Occupied(_) => (),
-            hash_map::Entry::Vacant(entry) => {
-                // TODO: We create an instance here, only to immediately transform it back to
-                // a family. Can we skip the middle step and just create a family directly?
-                let first_instance = first_instance_provider();
-                entry.insert(Box::new(first_instance.family()));
-            }
+        if GLOBAL_REGISTRY
+            .read()
+            .expect(ERR_POISONED_LOCK)
+            .contains_key(&family_key)
+        {
+            return;
         }
+
+        // The provider is arbitrary user code. In particular, it may access other linked static
+        // variables, which takes the global registry lock - so we must not hold that lock here.
+        // This makes use of our right to create a "first" instance of `T` even when it turns
+        // out that we do not need it: if another thread registers the family first, the instance
+        // (and family) we created here are thrown away without ever being exposed to user code.
+        //
+        // TODO: We create an instance here, only to immediately transform it back to
+        // a family. Can we skip the middle step and just create a family directly?
+        let first_instance = first_instance_provider();
+        let family = first_instance.family();
+
+        let unused_family = {
+            let mut global_registry = GLOBAL_REGISTRY.write().expect(ERR_POISONED_LOCK);
+
+            match global_registry.entry(family_key) {
+                hash_map::Entry::Occupied(_) => Some(family),
+                hash_map::Entry::Vacant(entry) => {
+                    entry.insert(Box::new(family));
+                    None
+                }
+            }
+        };
+
+        // Dropping these may run arbitrary user code, so it happens after releasing the lock.
+        drop(unused_family);
+        drop(first_instance);
     }
 
     // Attempts to obtain a new instance of `T` using the current thread's family registry,
